@@ -407,11 +407,14 @@ def _build_cp_atom_payload(sequence, restrict, payload_form=False, interner=None
     # and that everything is specific.
 
     lget = locked.get
+    touched = set()
 
     for key, neg, pos in reversed(l):
-        # only grab the deltas; if a + becomes a specific -
-        neg = tuple(x for x in neg if lget(x, True))
-        pos = tuple(x for x in pos if not lget(x, False))
+        # only grab the deltas; if a + becomes a specific -.  A flag that an
+        # earlier specific chunk changed has to be restated though.
+        neg = tuple(x for x in neg if x in touched or lget(x, True))
+        pos = tuple(x for x in pos if x in touched or not lget(x, False))
+        touched.update(neg, pos)
         if neg or pos:
             new_l.append(f(key, neg, pos))
 
